@@ -2851,6 +2851,21 @@ class StateEngine(object):
 
             return start
 
+        def get_reentry_index(context):
+            """
+            The start index with which a Map state is entered: zero unless this
+            is the event that asl_state_collect_results publishes to re-enter
+            the Map state for its next block of MaxConcurrency. Only that event
+            has a "Range" but no "Index" at the top of its "Branch" stack. With
+            an "Index" the top of the stack describes the iteration or branch
+            of an enclosing Map or Parallel state that this Map state is running
+            in, and the Range there is that of the enclosing Map state.
+            """
+            branch_info_stack = context["State"].get("Branch")
+            if branch_info_stack and "Index" in branch_info_stack[-1]:
+                return 0
+            return get_start_index(context)
+
         def asl_state_Map_delegate():
             """
             https://states-language.net/spec.html#map-state
@@ -2965,7 +2980,7 @@ class StateEngine(object):
                 if length and not "Branch" in context_state:
                     context_state["Branch"] = []
 
-                start = get_start_index(context)
+                start = get_reentry_index(context)
                 if length:
                     if start == 0:
                         if len(context_state["Branch"]) > 0:
@@ -3151,7 +3166,7 @@ class StateEngine(object):
             the "start" index to ensure we only set the RetryTimeout for
             the first "batch".
             """
-            if get_start_index(context) == 0:
+            if get_reentry_index(context) == 0:
                 retry_timeout = context["State"].get("RetryTimeout", 0)
             else:
                 retry_timeout = 0
@@ -3608,7 +3623,7 @@ class StateEngine(object):
         set we will re-enter the Map state, possibly several times, to process
         the next batch of items so again we want to suppress the history update.
         """
-        reentered_map = state_type == "Map" and get_start_index(context) != 0
+        reentered_map = state_type == "Map" and get_reentry_index(context) != 0
         if not context["State"].get("RetryCount") and not reentered_map:
             self.update_execution_history(
                 state_machine,
